@@ -307,7 +307,15 @@ def run_case(ctx, case):
         os.remove(os.path.join(nocache, model.CACHE_FILE))
     except FileNotFoundError:
         pass
-    for root in (path, nocache):
+    # a session that tried (twice) to refresh the persistent cache over the damaged workspace must not have
+    # laundered the damaged state points into it
+    ucache = ctx.scratch("uc")
+    shutil.rmtree(ucache)
+    shutil.copytree(path, ucache, symlinks=True)
+    U = signac.Project(ucache)
+    for _ in range(2):
+        sig.exc_name(U.update_cache)
+    for root in (path, nocache, ucache):
         for name in names:
             for how in ("byid", "iter"):
                 p2 = signac.Project(root)
@@ -327,8 +335,10 @@ def run_case(ctx, case):
                     ctx.violation("corrupted-statepoint-accepted",
                                   "opening a job yielded a state point whose hash differs from its id",
                                   {"id": name, "accessor": bad[0], "statepoint": bad[1], "how": how,
-                                   "with_cache_file": root == path, "reason": reason[name]})
+                                   "with_cache_file": root == path, "after_update_cache_attempts": root == ucache,
+                                   "reason": reason[name]})
     shutil.rmtree(nocache, ignore_errors=True)
+    shutil.rmtree(ucache, ignore_errors=True)
 
     # ---- repair
     if not damaged:
